@@ -574,6 +574,9 @@ class Server(BaseComponent):
         if sock in self._buffers:
             del self._buffers[sock]
 
+        if sock in self._closeq:
+            self._closeq.remove(sock)
+
         if sock in self._clients:
             self._clients.remove(sock)
         else:
@@ -600,7 +603,12 @@ class Server(BaseComponent):
             socks = [sock]
 
         for sock in socks:
-            if not self._buffers[sock]:
+            if sock != self._sock and sock not in self._clients:
+                # not (or no longer) one of our sockets: there is nothing
+                # to close and nothing must be remembered about it
+                continue
+
+            if not self._buffers.get(sock):
                 self._close(sock)
             elif sock not in self._closeq:
                 self._closeq.append(sock)
@@ -641,6 +649,11 @@ class Server(BaseComponent):
 
     @handler('write')
     def write(self, sock, data):
+        if sock not in self._clients:
+            # already disconnected (or never ours): the data cannot be
+            # delivered; registering the dead socket would leak it
+            return
+
         if not self._poller.isWriting(sock):
             self._poller.addWriter(self, sock)
         self._buffers[sock].append(data)
@@ -735,13 +748,19 @@ class Server(BaseComponent):
 
     @handler('_write', priority=1)
     def _on_write(self, sock):
+        if sock not in self._clients:
+            return
+
         if self._buffers[sock]:
             data = self._buffers[sock].popleft()
             self._write(sock, data)
 
+            if sock not in self._clients:
+                # closed by _write() on a send error
+                return
+
         if not self._buffers[sock]:
             if sock in self._closeq:
-                self._closeq.remove(sock)
                 self._close(sock)
             elif self._poller.isWriting(sock):
                 self._poller.removeWriter(sock)
